@@ -340,6 +340,9 @@ def intKind (signed : Bool) (size : Nat) (name : Option String) : Option IK :=
   | false, 8 => some (if name == some "usize" then .usize else .u64) | false, 16 => some .u128
   | _, _ => none
 
+/-- Unicode scalar values (what a Rust `char` may hold) -/
+def validChar (n : Nat) : Bool := n < 0xD800 || (0xE000 ≤ n && n ≤ 0x10FFFF)
+
 /-- `parse_scalar`'s value view -/
 def scalarValue (name : Option String) (size : Option Nat) (enc : Option Nat) (d : Option Data) : Option Scalar :=
   let word (k : Nat) : Option Nat := d.bind fun d => if k ≤ d.bytes.length then some (leNat (d.bytes.take k)) else none
@@ -366,7 +369,7 @@ def scalarValue (name : Option String) (size : Option Nat) (enc : Option Nat) (d
     | 8 => (word 8).map .f64
     | _ => none
   | some 2 => (word 1).map fun n => .bool (n != 0)                        -- DW_ATE_boolean
-  | some 16 => (word 4).map .chr                                          -- DW_ATE_UTF
+  | some 16 => (word 4).map fun n => .chr (if validChar n then n else 63)   -- DW_ATE_UTF ('?' for a non-scalar value)
   | some 18 => (word 4).map .chr                                          -- DW_ATE_ASCII
   | some _ => none
 
